@@ -264,6 +264,28 @@ CHECKS['C14'] = dict(
 ALL = ['C%02d' % i for i in range(1, 21)]
 
 
+# round 7 additions (appended to the texts above)
+SL = ('  The hand-off queue underneath (mpservice._queues.SingleLane), which these specifications treat as an atomic bounded FIFO, '
+      'is itself modelled (spec/SingleLane.tla: mutex, two conditions, if-waits, notify, timed-out waiters swallowing a '
+      'notification) and TLC checks that it refines that FIFO (AtomicQ, Bound, Fifo, no lost wake-up); the real class runs with one '
+      'writer and one reader under detsched in line mode (+ preemption-bounded exhaustive DFS of tiny programs) and every lock / '
+      'wait / notify / append / popleft is validated by TLC against SingleLaneTrace.')
+for _pid in ('C01', 'C05', 'C08', 'C09'):
+    CHECKS[_pid]['text'] += SL
+    CHECKS[_pid]['technique'] += '; component spec SingleLane (refinement of the atomic FIFO) with TLC trace validation of the real class'
+CHECKS['C03']['text'] += ('  The enumerated cases run a second time with a StopIteration object behind the failure token (PEP 479: '
+                          'the stream must still FAIL there, never just end early).')
+CHECKS['C14']['text'] += ('  managed(obj) without a typeid called concurrently in several server threads is modelled separately '
+                          '(spec/ManagedReg.tla: look-up / register / create on the shared registry; deleting the made-up entry '
+                          '"after this single use" - the TODO in the code - is refuted by TLC) and 2-3 clients of a real server '
+                          'process whose Server.create is delayed are validated against ManagedRegTrace.')
+CHECKS['C14']['technique'] += '; spec ManagedReg for concurrent managed() calls with TLC trace validation of real clients'
+CHECKS['C17']['text'] += ('  Process leg: also a single consumer that calls renew() on its own the moment its iteration ends, with '
+                          'helper queues that deliver slowly (tokens still in flight).')
+CHECKS['C07']['text'] += ('  TLC behaviours reaching "cancel inside the check/set window while another request waits for a slot" are '
+                          'steered into the real threads (scripted timer expiry, requests enter when the behaviour lets them).')
+
+
 def main():
     checks = []
     for pid in ALL:
